@@ -86,7 +86,9 @@ impl Template {
             Node::parse_vec_node(ps, &mut globals, &mut content);
             if ps.peek_str("</") {
                 let pos = ps.position();
-                ps.skip_until_after(">");
+                if ps.skip_until_after(">").is_none() {
+                    ps.add_warning(ParseErrorKind::IncompleteTag, pos..ps.position());
+                }
                 ps.add_warning(ParseErrorKind::InvalidEndTag, pos..ps.position());
             }
         }
